@@ -331,7 +331,7 @@ pub fn run(tier: Tier, seed: u64) -> i32 {
         rule: "Random core programs x documents; one abstraction per case: a right-hand literal -> `let` (file, rule, block or when scope; optionally shadowing an outer definition of the same name), a prefix of a left-hand query -> `let` + `%v.rest` (at the scope whose context is the clause's context), a block query -> `let`, an unused `let` (literal, unresolved query, or a function call that would raise an error), a rule-body clause -> parameterised rule called with the query or with the literal as argument; the rules of the abstracted program are additionally shuffled in half of the cases (which reference forces the lazy evaluation first). Both programs are evaluated by the tool: every rule of the original must keep its status (or both raise an evaluation error). Exempt: emptiness tests on a bare variable, filters directly after a variable. Non-trivial: the abstracted expression resolves to a value and some rule is not SKIP; distinct by hash of the three texts.".into(),
         assumptions: vec!["`%v.rest` continues from every value of v (the implicit [*] is a no-op on the result set), as documented in QUERY_PROJECTION_AND_INTERPOLATION.md".into()],
     };
-    execute("C15", tier, seed, spec, &replay, &|run: &crate::engine::Run| {
+    execute("C15", tier, seed, spec, &replay, &|run: &Session| {
         let sz = tier.pick(Size::quick(), Size::thorough());
         run.run_random("abstractions", tier.pick(60_000, 1_200_000), tier.pick(1200, 2400), |u| random_case(u, sz));
     })
